@@ -142,7 +142,10 @@ class Evaluators(Unit):
                 # a JSON value at every depth, never a placeholder for an undefined value
                 data2 = {"servers": [{"ip": "10.0.0.1"}, {"name": "no-ip"}], "d": {"a": 1}}
                 for stmt in ('{{ ctx("servers") | map(attribute="ip") | list }}', '{{ {"a": ctx("d").a, "b": ctx("d").missing} }}',
-                             '{{ [ctx("d").missing] }}', "<% ctx(servers).select($.ip) %>", "<% dict(a => ctx(d).a, b => ctx(d).missing) %>"):
+                             '{{ [ctx("d").missing] }}', "<% ctx(servers).select($.ip) %>", "<% dict(a => ctx(d).a, b => ctx(d).missing) %>",
+                             # views and generators, at the top and inside the result, come back as lists
+                             '{{ ctx("d").keys() }}', '{{ ctx("d").items() }}', '{{ {"names": ctx("servers") | map(attribute="name", default="-")} }}',
+                             "<% ctx(d).keys() %>", "<% ctx(d).items() %>"):
                     try:
                         r = expr_base.evaluate(stmt, copy.deepcopy(data2))
                         json.dumps(r)
@@ -272,7 +275,12 @@ class InspectContext(Unit):
 
     def run_split(self, ctx, split):
         def thunk(e):
-            refs = {"yaql": "<% ctx().{v} %>", "yaql_fn": "<% ctx({v}) %>", "jinja": "{{{{ ctx().{v} }}}}"}
+            refs = {"yaql": "<% ctx().{v} %>", "yaql_fn": "<% ctx({v}) %>", "jinja": "{{{{ ctx().{v} }}}}",
+                    # a reference nested inside another reference (index / argument position)
+                    "yaql_nested": "<% ctx(known)[ctx({v})] %>", "yaql_nested_dot": "<% ctx().known[ctx().{v}] %>",
+                    "jinja_nested": "{{{{ ctx('known')[ctx('{v}')] }}}}",
+                    # an equality in the expression (reads like an inline parameter name=value)
+                    "yaql_equality": "<% ctx().{v}='fast' or ctx(known)=1 %>", "yaql_equality_after": "<% ctx(known)=0 and ctx().{v} %>"}
             for lang, tmpl in refs.items():
                 for case in ("assigned", "unassigned", "self"):
                     for pos in ("vars", "task_input", "publish", "output", "retry_when", "retry_count", "task_delay", "with_items"):
